@@ -3,7 +3,9 @@ import vlib
 from props import lbcgen
 
 PROP = "C15"
-PROPS_FILES = ["Nic/Props/C15.lean"]
+PROPS_FILES = ["Nic/Props/C15.lean", "Nic/Props/TieMisc.lean"]
+# Go functions translated from /repo on every run (tools/gofn) and proved equal to the model in the Tie file above
+TIE_FUNCS = ['internal/k8s/appprotect_waf.go:isMatchingResourceRef', 'internal/k8s/appprotectdos/app_protect_dos_configuration.go:getNsName']
 HARNESS = "vh-k8s"
 PARALLEL = 8
 RULE = ("(refs) every reference-bearing position of every served resource kind, exhaustively: VirtualServer (TLS secret, upstream service, backup "
